@@ -1,6 +1,6 @@
 (* C15, stage 5d: functions (oneway, result type, arguments, throws clause) and services (extends clause). *)
 From PVIdl Require Import Comb Ast Parser Print Proofs.Total Proofs.RoundTok Proofs.RoundPath Proofs.RoundAnn Proofs.RoundTy
-  Proofs.RoundKit Proofs.RoundNum Proofs.RoundConst Proofs.RoundDecl Proofs.RoundField.
+  Proofs.RoundKit Proofs.Lex Proofs.RoundNum Proofs.RoundConst Proofs.RoundDecl Proofs.RoundField.
 From Coq Require Import ZifyN ZifyNat ZifyBool.
 From Coq Require String.
 Import String.StringSyntax.
@@ -393,7 +393,7 @@ Proof.
     - match goal with H : _ && _ = true |- _ => bsplit H end. apply opt_ok. unfold p_extends.
       mbk lf whole Hlf S ltac:(reflexivity). tg kw_extends (txt "extends").
       mbk lf whole Hlf S ltac:(apply path_head; auto; intros c Hc; apply stop_nb with (k := [c]); cbn; now apply idh_stop).
-      apply (rt_path lf whole Hlf); auto; [|sfx_of S]. split; [exact NX|]. unfold p_path_sep, X.
+      apply (rt_path lf whole Hlf); auto; [|sfx_of S]. split; [exact NX|]. left. unfold p_path_sep, X.
       destruct (oblank lf whole Hlf b2 (txt "{" ++ pr_fns fns (pr_blank b3 (txt "}" ++ pr_tail tl k))) ltac:(assumption) eq_refl ltac:(sfx_of S)) as [o ->].
       cbn [pbind]. apply pbind_err. exact I.
     - apply opt_err. unfold p_extends, X. destruct b2 as [|a0 b2].
